@@ -754,6 +754,16 @@ func genCase(t *rapid.T) *Case {
 	if rapid.IntRange(0, 9).Draw(t, "startkind") >= 4 {
 		c.Start = rapid.IntRange(0, len(subj)+1).Draw(t, "start")
 	}
+	// a start position inside a surrogate pair: under u the engines step back / substitute code units there
+	var lows []int
+	for i := 0; i+1 < len(subj); i++ {
+		if isHigh(int(subj[i])) && isLow(int(subj[i+1])) {
+			lows = append(lows, i+1)
+		}
+	}
+	if len(lows) > 0 && rapid.IntRange(0, 3).Draw(t, "start-midpair") == 0 {
+		c.Start = lows[rapid.IntRange(0, len(lows)-1).Draw(t, "midpair")]
+	}
 	c.StartForm = "int"
 	if k := rapid.IntRange(0, 19).Draw(t, "startform"); k >= 17 {
 		c.StartForm = []string{"str", "frac", "neg", "inf", "undef"}[rapid.IntRange(0, 4).Draw(t, "sf")]
